@@ -434,7 +434,9 @@ impl<'a> Gen<'a> {
                 "{ind}---@class (exact) {} some text\n{ind}---@class (partial) Bcd: Base other\n{ind}---@field private x number the x\n{ind}---@field protected yy string\n{ind}local {a} = {{}}\n",
                 self.rng.pick(&["A", "Point"])
             ),
-            7 if self.docs => format!("{ind}---@enum (key) Kind one\n{ind}---@enum Mode two\n{ind}local {a} = {{ a = 1 }}\n"),
+            7 if self.docs => format!(
+                "{ind}---@enum (key) Kind one\n{ind}---@enum Mode two\n{ind}local {a} = {{ a = 1 }}\n{ind}---@alias Box<T> T[]\n{ind}---@alias (partial) Map<K, V> table<K, V> some map\n{ind}---@alias Opt\n{ind}---|> \"collect\" # full\n{ind}---| \"stop\"\n{ind}---@alias Other string\n{ind}local {b} = 1\n"
+            ),
             8 => format!("{ind}local   {a}=2 {b}(\n{ind}  {c}\n{ind})\n"),
             9 => format!("{ind}do\n{ind}  do\n{ind}      local {a} = \"first \\z\n{ind}           second\" .. \"x\\\n{ind}   y\"\n{ind}  end\n{ind}end\n"),
             10 => format!("{ind}{a}({b}) {c} = {}\n", self.tricky_expr()),
